@@ -226,14 +226,27 @@ class FamilyBuilder:
 
     def make_generic(self):
         r = self.rng
+        base = None
+        if self.kn.get("generic_base") and r.random() < 0.7:
+            # a generic base class: G(GB[T]) — type parameters are resolved
+            # through the inheritance chain
+            bname = self.name("GB")
+            bc = {"name": bname, "mixins": self.pick_mixins(), "tvars": ["T"],
+                  "fields": [{"n": bname.lower() + "_v", "t": ["tv", "T"]}]}
+            self.generics.append(bname)
+            self.add(bc)
+            base = bname
         name = self.name("G")
-        mix = self.pick_mixins()
+        mix = self.pick_mixins() if base is None else []
         fields = [{"n": name.lower() + "_v", "t": ["tv", "T"]}]
         if r.random() < 0.6:
             fields.append({"n": name.lower() + "_vs", "t": ["list", ["tv", "T"]], "d": ["l", []]})
         if r.random() < 0.4:
             fields.append({"n": name.lower() + "_o", "t": ["opt", ["tv", "T"]], "d": ["n"]})
         c = {"name": name, "mixins": mix, "tvars": ["T"], "fields": fields}
+        if base is not None:
+            c["bases"] = [base]
+            c["base_args"] = {base: [["tv", "T"]]}
         cfg = self.pick_cfg(bool(mix))
         if cfg is not None:
             c["cfg"] = cfg
@@ -884,8 +897,10 @@ def gen_codec_op(rng, fam, kn, defined, codecs):
 
 def gen_schedule(rng, est_steps=20000):
     x = rng.random()
-    if x < 0.25:
+    if x < 0.2:
         return {"kind": "centry", "q": rng.choice([0.3, 0.6, 1.0]), "p": rng.choice([0.0, 0.002, 0.02])}
+    if x < 0.35:
+        return {"kind": "gstate", "q": rng.choice([0.3, 0.5, 0.8]), "p": rng.choice([0.0, 0.002, 0.01])}
     if x < 0.55:
         p = rng.choice([0.002, 0.01, 0.03, 0.1, 0.3])
         return {"kind": "uniform", "p": p, "pg": rng.choice([p, p, 0.5])}
